@@ -55,6 +55,12 @@ class ModuleRoles(object):
             cur |= new
             self._changed = True
 
+    def _index_use(self, fname, sel, idx):
+        """An index expression used directly as row (Wi) / column (Pi) selector of the matrix."""
+        uses = self.__dict__.setdefault('index_uses', {}).setdefault(fname, [])
+        if not any(u is sel for u, _ in uses):
+            uses.append((sel, idx))
+
     def _names(self, e):
         return [x.id for x in ast.walk(e) if isinstance(x, ast.Name)]
 
@@ -160,6 +166,10 @@ class ModuleRoles(object):
                                         self._add(fname, nm, {idx})
                         elif isinstance(sel, ast.Name):
                             self._add(fname, sel.id, {vec} if (sel.id in vl or self.env[fname].get(sel.id, set()) & {'Wv', 'Pv'}) else {idx})
+                            if not (sel.id in vl or self.env[fname].get(sel.id, set()) & {'Wv', 'Pv'}):
+                                self._index_use(fname, sel, idx)
+                        elif isinstance(sel, (ast.Attribute, ast.Subscript, ast.BinOp, ast.Call)):
+                            self._index_use(fname, sel, idx)      # e.g. matrix[:, comp.axis]
                 elif base & {'Wv', 'Pv'} and not isinstance(sl, (ast.Tuple, ast.Slice)):
                     idx = set()
                     if 'Wv' in base:
